@@ -308,6 +308,33 @@ func genFactsIds(L *loader) (string, any, []string) {
 	stmtList(tpkg+".txnSansSigs.EncodeTo", "txnSansSigsBody", "types.txnSansSigs.EncodeTo")
 	stmtList(tpkg+".Transaction.EncodeTo", "transactionEncodeBody", "types.Transaction.EncodeTo")
 
+	// the Merkle accumulator under the block commitments (package blake2b)
+	const bpkg = coreMod + "/blake2b"
+	stmtList(bpkg+".Accumulator.AddLeaf", "accumulatorAddLeafBody", "blake2b.Accumulator.AddLeaf")
+	stmtList(bpkg+".Accumulator.Root", "accumulatorRootBody", "blake2b.Accumulator.Root")
+	stmtList(bpkg+".Accumulator.hasTreeAtHeight", "accumulatorHasTreeBody", "blake2b.Accumulator.hasTreeAtHeight")
+	stmtList(bpkg+".SumPair", "sumPairBody", "blake2b.SumPair")
+	stmtList(bpkg+".hashBlockGeneric", "hashBlockGenericBody", "blake2b.hashBlockGeneric")
+	// block weight: the bound behind "a v1 transaction id preimage never starts with a specifier"
+	stmtList(cpkg+".State.MaxBlockWeight", "maxBlockWeightBody", "consensus.State.MaxBlockWeight")
+	stmtList(cpkg+".State.TransactionWeight", "transactionWeightBody", "consensus.State.TransactionWeight")
+	if fd := L.funcs[cpkg+".State.MaxBlockWeight"]; fd != nil && len(fd.Body.List) == 1 {
+		done := false
+		if rs, ok := fd.Body.List[0].(*ast.ReturnStmt); ok && len(rs.Results) == 1 {
+			if tv, ok := L.info.Types[rs.Results[0]]; ok && tv.Value != nil {
+				if v, ok := constant.Int64Val(constant.ToInt(tv.Value)); ok {
+					fmt.Fprintf(&sb, "/-- State.MaxBlockWeight -/\ndef maxBlockWeight : Nat := %d\n\n", v)
+					done = true
+				}
+			}
+		}
+		if !done {
+			fail("consensus.State.MaxBlockWeight: body is not `return <const>`")
+		}
+	} else {
+		fail("consensus.State.MaxBlockWeight not found or not a single return")
+	}
+
 	// constants used by these bodies
 	emitConst := func(pkg, name, defName string) {
 		found := false
@@ -345,6 +372,8 @@ func genFactsIds(L *loader) (string, any, []string) {
 	emitConst(tpkg, "leafHashPrefix", "leafHashPrefix_types")
 	emitConst(cpkg, "leafHashPrefix", "leafHashPrefix_consensus")
 	emitConst(cpkg, "commitmentDistinguisher", "commitmentDistinguisher")
+	emitConst(bpkg, "leafHashPrefix", "leafHashPrefix_blake2b")
+	emitConst(bpkg, "nodeHashPrefix", "nodeHashPrefix_blake2b")
 	sb.WriteString("\n")
 
 	// specifiers used by id derivations: NewSpecifier("...") values
